@@ -442,4 +442,22 @@ def rankModelsFull (s : Option SExpr) (rt : RankType) (cutoff : Cutoff) (isf : R
   | .error x => .error x
   | .ok vs => .ok (rankModels { lrt := rt == .lrt, cutoff := cutoff, isf := isf } (toCands entries vs))
 
+/-! ### `create_results` (tools/common.py): the model reported as best -/
+
+/-- `best_model_name = summary_tool['rank'].idxmin()`; a candidate with that name, else
+    the base model; the base model (index 0) when no row has a rank. -/
+def finalModel (rows : List Row) : Nat := (bestModel rows).getD 0
+
+/-- `create_results` up to the choice of `final_model`: `summarize_tool` calls
+    `rank_models` *without* a parent map (every LRT is against the base model) and
+    raises "All models fail the strictness criteria!" when, for a non-LRT rank
+    type, no model has a criterion value. -/
+def createResults (s : Option SExpr) (rt : RankType) (cutoff : Cutoff) (isf : Rat → Nat → Rat)
+    (entries : List Entry) : Except SErr (List Row × Nat) :=
+  match rankModelsFull s rt cutoff isf (entries.map (fun e => { e with parent := 0 })) with
+  | .error x => .error x
+  | .ok rows =>
+    if rt != .lrt && rows.all (fun r => r.rv.isNan) then .error .valueError
+    else .ok (rows, finalModel rows)
+
 end Pharmpy.C19
